@@ -156,6 +156,128 @@ func (g *gen) corpus() {
 	g.longSecrets = long
 }
 
+// bigLists: requests far longer than anything the random generator builds (the storage layer looks the inputs up with one
+// statement per request: nothing may depend on the length of the list or on the position of a secret in it).  One used and
+// one locked secret at each of a set of positions around 2^8..2^10 and 1000 inside otherwise fresh inputs, one accepted
+// request of that size, and one state check over every secret of the history (every position at once).
+func (g *gen) bigLists() {
+	s, env := g.s, g.env
+	n := 1040
+	d := uint64(1) // denomination of the fresh inputs: above the per-input fee
+	for uint64(env.Opts.FeePpk) >= 1000*d {
+		d *= 2
+	}
+	q := s.OpMintQuote(uint64(n)*d+511, "sat", 0, false)
+	if q == nil {
+		return
+	}
+	s.Settle(q)
+	long := g.longSecrets
+	g.longSecrets = false
+	defer func() { g.longSecrets = long }()
+	outs := g.outputs(511, env.ActiveKeysetId()) // 1, 2, 4, .., 256
+	for i := 0; i < n; i++ {
+		o, err := env.MakeOutput(env.RandomSecret(), d, env.ActiveKeysetId())
+		if err != nil {
+			return
+		}
+		oc := o
+		outs = append(outs, ReqOut{BM: o.BM, Kind: "pt", O: &oc})
+	}
+	n0 := len(s.proofs)
+	s.OpMint(q, outs, 0)
+	if len(s.proofs) < n0+n+9 {
+		return
+	}
+	var used, toLock *HProof
+	for _, hp := range s.proofs[n0 : n0+9] {
+		switch hp.P.Amount {
+		case 256:
+			used = hp
+		case 128:
+			toLock = hp
+		}
+	}
+	fresh := s.proofs[n0+9 : n0+9+n]
+	if used == nil || toLock == nil {
+		return
+	}
+	// a used and a locked secret
+	spend := []ReqProof{g.genuine(used)}
+	fee, _ := s.feeOf(spend)
+	s.OpSwap(spend, g.outputs(256-fee, env.ActiveKeysetId()))
+	var locked *HProof
+	if li, err := env.LN.makeInvoice(2000, true); err == nil {
+		s.regExt(li)
+		if mq := s.OpMeltQuote(li, "sat", 0, 0); mq != nil {
+			s.OpMeltLn(mq, []ReqProof{g.genuine(toLock)}, []string{"pending", "pending"}, false)
+			if toLock.LockedBy != 0 {
+				locked = toLock
+			}
+		}
+	}
+	build := func(bad *HProof, at int) []ReqProof {
+		var ps []ReqProof
+		for i := 0; len(ps) <= at+1 && i < len(fresh); i++ {
+			if len(ps) == at {
+				ps = append(ps, g.genuine(bad))
+			}
+			ps = append(ps, g.genuine(fresh[i]))
+		}
+		return ps
+	}
+	tryAt := func(bad *HProof, at int) {
+		ps := build(bad, at)
+		if len(ps) <= at {
+			return
+		}
+		f, _ := s.feeOf(ps)
+		in := sumReq(ps)
+		if in <= f {
+			return
+		}
+		s.OpSwap(ps, g.outputs(in-f, env.ActiveKeysetId()))
+	}
+	for _, at := range []int{255, 256, 499, 500, 511, 512, 998, 999, 1000} {
+		tryAt(used, at)
+		if locked != nil {
+			tryAt(locked, at)
+		}
+	}
+	// melt: the used / locked secret at position 999 of the inputs (must be refused before anything is paid)
+	if li, err := env.LN.makeInvoice(5000, true); err == nil {
+		s.regExt(li)
+		if mq := s.OpMeltQuote(li, "sat", 0, 0); mq != nil {
+			s.OpMeltLn(mq, build(used, 999), []string{"succ"}, false)
+			if locked != nil {
+				s.OpMeltLn(mq, build(locked, 999), []string{"succ"}, false)
+			}
+		}
+	}
+	// every secret of the history in one state check (every position at once)
+	all := func() []YQuery {
+		var qs []YQuery
+		for _, hp := range s.proofs {
+			if !hp.Long {
+				qs = append(qs, YQuery{Y: YOf(hp.P.Secret), Sec: hp.P.Secret})
+			}
+		}
+		return qs
+	}
+	s.OpCheckState(all(), []string{"pending", "pending", "pending", "pending", "pending", "pending"})
+	// and one accepted request of that size
+	var ps []ReqProof
+	for _, hp := range fresh[:1001] {
+		ps = append(ps, g.genuine(hp))
+	}
+	f, _ := s.feeOf(ps)
+	if in := sumReq(ps); in > f {
+		s.OpSwap(ps, g.outputs(in-f, env.ActiveKeysetId()))
+	}
+	s.OpCheckState(all(), []string{"pending", "pending", "pending", "pending", "pending", "pending"})
+	s.c.Hist("corpus", "long request lists")
+}
+
 func sumReq(ps []ReqProof) uint64 {
 	var s uint64
 	for _, p := range ps {
@@ -494,6 +616,9 @@ func runOneHistory(c *Ctx, h int, nOps int, model bool) {
 		opts.Limits.MintingSettings.MaxAmount = uint64(64 + r.Intn(2000))
 		opts.Limits.MeltingSettings.MaxAmount = uint64(64 + r.Intn(2000))
 	}
+	if h == 0 {
+		opts.Limits = mint.MintLimits{} // the first history runs the corpus, which assumes no limits
+	}
 	env, err := NewMintEnv(c, fmt.Sprintf("mint-%d", h), opts)
 	if err != nil {
 		c.Disagree(mintSeqProps, "setup", err.Error(), "", nil)
@@ -513,6 +638,10 @@ func runOneHistory(c *Ctx, h int, nOps int, model bool) {
 	}
 	if h == 0 {
 		g.corpus()
+		if len(c.Res.Disagreements) > 0 {
+			return
+		}
+		g.bigLists()
 		if len(c.Res.Disagreements) > 0 {
 			return
 		}
@@ -539,6 +668,34 @@ func (g *gen) step() {
 	r, s, env := g.r, g.s, g.env
 	u := g.unspent()
 	w := r.Intn(100)
+	if env.Opts.Limits.MaxBalance > 0 && r.Chance(8) {
+		s.OpBalance() // the report is watched more closely where a limit depends on it
+		return
+	}
+	if mb := env.Opts.Limits.MaxBalance; mb > 0 && r.Chance(10) {
+		// walk the balance up to EXACTLY the maximum (the only way to reach "minting disabled": a quote that would pass
+		// the maximum is refused), reading the report before and after
+		var iss, red uint64
+		for _, v := range s.issuedByKs {
+			iss += v
+		}
+		for _, v := range s.redeemedByKs {
+			red += v
+		}
+		if iss >= red && iss-red < mb {
+			amt := mb - (iss - red)
+			if ma := env.Opts.Limits.MintingSettings.MaxAmount; ma > 0 && amt > ma {
+				amt = ma
+			}
+			s.OpBalance()
+			if q := s.OpMintQuote(amt, "sat", 0, false); q != nil {
+				s.Settle(q)
+				s.OpMint(q, g.outputs(amt, env.ActiveKeysetId()), 0)
+			}
+			s.OpBalance()
+			return
+		}
+	}
 	switch {
 	case w < 12: // mint quote
 		amt := uint64(1 + r.Intn(300))
